@@ -30,9 +30,9 @@ fn thread_states(pid: i32) -> Vec<(i32, char, i32)> {
 }
 
 fn left_running(pid: i32, what: &str, bad: &mut Vec<String>) {
-    // a continued thread needs a moment to leave the stop; poll up to 1 s
+    // a continued thread needs a moment to leave the stop; poll up to 3 s
     let mut last = Vec::new();
-    for _ in 0..100 {
+    for _ in 0..300 {
         last = thread_states(pid).into_iter().filter(|(_, s, t)| *t != 0 || *s == 'T' || *s == 't').collect();
         if last.is_empty() { return; }
         std::thread::sleep(std::time::Duration::from_millis(10));
